@@ -1083,7 +1083,6 @@ Section KProofs.
       subst t0. apply NoDup_app_disj; [apply r_nodup0|repeat constructor; intros []|].
       intros y Hy [<-|[]]. contradiction.
   Qed.
-(* ==DEV== *)
   Lemma tag_app t (es1 es2 : list ev) : Conc.tag t (es1 ++ es2) = Conc.tag t es1 ++ Conc.tag t es2.
   Proof. unfold Conc.tag. apply map_app. Qed.
 
@@ -1216,16 +1215,18 @@ Section KProofs.
       destruct (write_comps rs_enc (upd_rec g q (set_res (g_recs g q) rs)) rest) as [g2 es] eqn:Hw. cbn [fst snd].
       destruct (Hheld q (or_introl eq_refl)) as (o & z & Hin).
       destruct (@held_info c g a tr t q o z R L2 Hin) as (Hok & Hreq & Harg & _).
-      cbn [run_comps] in Hrun. destruct Hrun as [Hrs Hrun]. unfold op_of, env_of in Hrs, Hrun; cbn [fst snd] in Hrs, Hrun.
-      pose proof (@lin_one c g a tr t q o z R L2 Hin) as R1. cbn zeta in R1.
-      unfold recs in *. rewrite Hreq, Harg in *. rewrite Hrs in R1.
+      assert (Hop : op_of S dec (env_of g) q = dec o z).
+      { unfold op_of, env_of; cbn [fst snd]. rewrite Hreq, Harg. reflexivity. }
+      cbn [run_comps] in Hrun. destruct Hrun as [Hrs Hrun]. rewrite Hop in Hrs, Hrun. rewrite Hop.
+      pose proof (@lin_one c g a tr t q o z R L2 Hin) as R1. cbn zeta in R1. rewrite Hrs in R1. unfold recs in R1.
       cbn [map fst] in Hnd. apply NoDup_cons_iff in Hnd. destruct Hnd as [Hq Hnd].
       change (Conc.tag t (ev_exec rs_enc (g_recs g q) rs :: es)) with ([(t, ev_exec rs_enc (g_recs g q) rs)] ++ Conc.tag t es).
       rewrite app_assoc.
       specialize (IH (fst (sstep S c (dec o z))) (upd_rec g q (set_res (g_recs g q) rs))
                      (lin_aux a t q (r_tid (g_recs g q)) (dec o z) rs) (tr ++ [(t, ev_exec rs_enc (g_recs g q) rs)]) t R1).
       rewrite Hw in IH. cbn [fst snd] in IH.
-      unfold op_of, env_of; cbn [fst snd]. unfold recs. rewrite Hreq, Harg.
+      assert (Hd : dec (r_req (recs g q)) (r_arg (recs g q)) = dec o z) by (rewrite Hreq, Harg; reflexivity).
+      rewrite Hd.
       rewrite <- (@final_comps_ext (env_of g) (env_of (upd_rec g q (set_res (g_recs g q) rs))) (fst (sstep S c (dec o z))) rest (fun q' => env_of_upd_res g q rs q')).
       apply IH.
       + exact L2.
@@ -1234,5 +1235,525 @@ Section KProofs.
       + exact Hnd.
       + eapply run_comps_ext; [|exact Hrun]. intros; apply env_of_upd_res.
   Qed.
-(* ==DEV2== *)
+  Lemma LkInv_set_p g a tr t x : LkInv g a tr -> LkInv g (set_p a t x) tr.
+  Proof. intros [L1 L2 L3]. split; assumption. Qed.
+
+  Lemma RestC_set_p c g a tr t x : RestC c g a tr -> (forall e, In e x -> In e (x_held a t)) -> RestC c g (set_p a t x) tr.
+  Proof.
+    intros R Hx. destruct R. split; try assumption.
+    intros t0 e Hin. cbn in *. unfold upd in Hin. destruct (Nat.eqb_spec t0 t) as [->|]; [apply Hx; exact Hin|apply r_p0; exact Hin].
+  Qed.
+
+  Lemma x_held_lin_many comps a t g : x_held (lin_many a t g comps) t = dropl (map fst comps) (x_held a t).
+  Proof. pose proof (view_lin_many comps a t g) as H. apply (f_equal v_held) in H. exact H. Qed.
+
+  Lemma write_comps_lock comps : forall (g : G), g_lock (fst (write_comps rs_enc g comps)) = g_lock g.
+  Proof.
+    induction comps as [|[q rs] rest IH]; intros g; cbn [write_comps]; [reflexivity|].
+    specialize (IH (upd_rec g q (set_res (g_recs g q) rs))).
+    destruct (write_comps rs_enc (upd_rec g q (set_res (g_recs g q) rs)) rest) as [g' es]. cbn [fst] in *. rewrite IH. reflexivity.
+  Qed.
+
+  (** one iteration of the fc_process loop *)
+  Lemma safe_visit R t p r o z (k : V -> prog R) l Q :
+    v_lk l = LInside -> v_fin l = [] -> In (r, o, z) (v_held l) -> v_p l = pheld p ->
+    (forall p' comps, safe t (k (VV p' comps))
+        (vp (vfin (vheld l (dropl (map fst comps) (v_held l))) (map fst comps)) (pheld p')) Q) ->
+    safe t (Act (@a_visit (St S) (Res S) rs_enc P pvisit p r) k) l Q.
+  Proof.
+    intros Hl Hf Hin Hp K. cbn [Conc.safe]. intros g a tr [HL HR] Hv.
+    pose proof (view_lk Hv) as Elk. rewrite Hl in Elk. pose proof (view_fin Hv) as Efin. rewrite Hf in Efin.
+    pose proof (view_held Hv) as Eheld. rewrite <- Eheld in Hin.
+    assert (Ep : x_p a t = pheld p) by (rewrite <- Hp, <- Hv; reflexivity).
+    unfold a_visit. set (x := g_recs g r).
+    destruct (pvisit p (g_cont g) r (r_req x) (r_tid x) (r_arg x)) as [[p' c'] comps] eqn:Hpv.
+    destruct (write_comps rs_enc g comps) as [g' es] eqn:Hw. cbn [fst snd].
+    exists (set_p (lin_many a t g comps) t (pheld p')).
+    split; [|split; [eapply frame_trans; [apply frame_lin_many|apply frame_set_p]|]].
+    2:{ assert (Hview : view (set_p (lin_many a t g comps) t (pheld p')) t =
+                        vp (vfin (vheld l (dropl (map fst comps) (v_held l))) (map fst comps)) (pheld p')).
+        { rewrite view_set_p, view_lin_many, Efin. subst l. reflexivity. }
+        rewrite Hview. apply K. }
+    assert (HLk : LkInv (set_cont g' c') (set_p (lin_many a t g comps) t (pheld p')) (tr ++ Conc.tag t (acc g KLd r FReq true ++ es))).
+    { apply LkInv_set_p. apply LkInv_lin_many. destruct HL as [L1 L2 (h & L3 & L4)]. split.
+      - intros Hfree. apply L1. pose proof (write_comps_lock comps g) as Hk. rewrite Hw in Hk. cbn in Hk, Hfree. congruence.
+      - exact L2.
+      - exists h. split; [|exact L4]. rewrite tag_app, app_assoc, mon_app, mon_app, L3, neutral_mon by apply acc_neutral.
+        assert (h = Some t) as -> by (apply L4; exact Elk).
+        pose proof (mon_write_comps comps g t) as Hm. rewrite Hw in Hm. exact Hm. }
+    split; [exact HLk|].
+    destruct HR as [Hlost|HR]; [left; apply lost_mono; exact Hlost|right].
+    pose proof HL as [L1 L2 _].
+    assert (R1 : Rest g a (tr ++ Conc.tag t (acc g KLd r FReq true))).
+    { eapply Rest_neutral; [exact HR|apply neutral_upd_refl|apply acc_neutral]. }
+    destruct (@held_info (g_cont g) g a _ t r o z R1 L2 Hin) as (Hok & Hreq & Harg & _).
+    unfold recs in Hreq, Harg. fold x in Hreq, Harg. rewrite Hreq, Harg in Hpv.
+    assert (Hag : agrees okop (env_of g) (pheld p)).
+    { intros q oq zq He. rewrite <- Ep in He. apply (r_p R1) in He.
+      destruct (@held_info (g_cont g) g a _ t q oq zq R1 L2 He) as (A & B & C & _). unfold env_of. rewrite B, C. auto. }
+    assert (Hr : env_of g r = (o, z)) by (unfold env_of, recs; fold x; rewrite Hreq, Harg; reflexivity).
+    destruct (@pvisit_sound (env_of g) _ _ _ _ _ _ _ _ _ Hpv Hr Hok Hag) as (V1 & V2 & V3 & V4 & V5 & V6).
+    assert (Hmem : forall q, In q (map fst comps) -> exists o' z', In (q, o', z') (x_held a t)).
+    { intros q Hq. destruct (V2 q Hq) as [->|Hq'].
+      - exists o, z. exact Hin.
+      - apply in_map_iff in Hq'. destruct Hq' as ([[q1 o1] z1] & E & He). cbn in E. subst q1.
+        exists o1, z1. apply (r_p R1). rewrite Ep. exact He. }
+    pose proof (@lin_many_ok comps (g_cont g) g a _ t R1 L2 Hmem V1 V3) as R2.
+    rewrite Hw in R2. cbn [fst snd] in R2. rewrite V4 in R2.
+    rewrite tag_app, app_assoc.
+    apply RestC_set_p; [apply RestC_set_cont; exact R2|].
+    intros e He. rewrite x_held_lin_many. apply in_dropl. destruct (V6 e He) as [[->|Hold] Hno].
+    - split; [exact Hin|exact Hno].
+    - split; [apply (r_p R1); rewrite Ep; exact Hold|exact Hno].
+  Qed.
+
+  (** the response stores of one iteration *)
+  Lemma safe_dones R t comps : forall (k : prog R) l Q,
+    v_lk l = LInside -> (exists rest, v_fin l = map fst comps ++ rest /\ safe t k (vfin l rest) Q) ->
+    safe t (dones comps k) l Q.
+  Proof.
+    induction comps as [|[q rs] rest IH]; intros k l Q Hl (rest0 & Hf & K); cbn [dones].
+    - cbn in Hf. destruct l; cbn in *; subst. exact K.
+    - eapply safe_done; [exact Hl|exact Hf|]. intros v. apply IH; [exact Hl|]. exists rest0. split; [reflexivity|exact K].
+  Qed.
+
+  (** a neutral step at which the thread forgets (part of) the requests remembered by fc_process *)
+  Lemma safe_neutral_p R t f (k : V -> prog R) l p' Q :
+    neutral_act f -> (forall e, In e p' -> In e (v_held l)) -> (forall v, safe t (k v) (vp l p') Q) ->
+    safe t (Act f k) l Q.
+  Proof.
+    intros Hn Hsub Hk. cbn [Conc.safe]. intros g a tr Hi Hv. destruct (Hn g) as (H0 & H1 & H2).
+    exists (set_p a t p'). split; [|split; [apply frame_set_p|rewrite view_set_p, Hv; apply Hk]].
+    destruct (Inv_neutral t Hi H0 H1 H2) as [HL HR]. split; [apply LkInv_set_p; exact HL|].
+    destruct HR as [Hlost|HR]; [left; exact Hlost|right]. apply RestC_set_p; [exact HR|].
+    intros e He. rewrite (view_held Hv). apply Hsub; exact He.
+  Qed.
+  (** ** the programs *)
+  Notation kpublish := (@publish (St S) (Res S) P).
+  Notation krepublish := (@republish (St S) (Res S) P).
+  Notation kpush_loop := (@push_loop (St S) (Res S) P).
+  Notation kcpass := (@cpass (St S) (Res S) rs_enc capply P).
+  Notation kpasses := (@passes (St S) (Res S) rs_enc capply P).
+  Notation kskip := (@skip_inactive (St S) (Res S) P).
+  Notation kwalk := (@process_walk (St S) (Res S) rs_enc P pvisit).
+  Notation kfc_process := (@fc_process (St S) (Res S) rs_enc P pinit pvisit).
+  Notation kprocess_passes := (@process_passes (St S) (Res S) rs_enc P pinit pvisit).
+  Notation kis_published := (@is_published (St S) (Res S) P).
+  Notation kcompact1 := (@compact1 (St S) (Res S) P).
+  Notation kcompact2 := (@compact2 (St S) (Res S) rs0 P chk).
+  Notation kcompact_list := (@compact_list (St S) (Res S) rs0 P chk).
+  Notation kcombining := (@combining (St S) (Res S) rs0 rs_enc capply P pinit pvisit chk).
+  Notation kwait := (@wait_for_combining (St S) (Res S) P).
+  Notation ktry := (@try_combining (St S) (Res S) rs0 rs_enc capply P pinit pvisit chk).
+  Notation krequest := (@request (St S) (Res S) rs0 rs_enc capply P pinit pvisit chk).
+  Notation kacquire := (@acquire_record (St S) (Res S) rs0 P).
+  Notation kexit := (@thread_exit (St S) (Res S) P).
+  Notation krun_ops := (@run_ops (St S) (Res S) rs0 rs_enc capply P pinit pvisit chk).
+  Notation kthread_prog := (@thread_prog (St S) (Res S) rs0 rs_enc capply P pinit pvisit chk).
+
+  Definition optQ {A} (Pq : A -> tview -> Prop) : option A -> tview -> Prop :=
+    fun o l => match o with None => True | Some x => Pq x l end.
+
+  Lemma safe_obind A B t (p : prog (option A)) (q : A -> prog (option B)) l (Pq : B -> tview -> Prop) :
+    safe t p l (optQ (fun x l' => safe t (q x) l' (optQ Pq))) -> safe t (obind p q) l (optQ Pq).
+  Proof.
+    intros H. unfold obind. apply Conc.safe_bind. eapply Conc.safe_weaken; [|exact H].
+    intros [x|] l' Hx; unfold optQ in *; cbn in *; auto.
+  Qed.
+
+  Lemma safe_ret A t (x : A) l (Pq : A -> tview -> Prop) : Pq x l -> safe t (@ret (St S) (Res S) P A x) l (optQ Pq).
+  Proof. intros H. exact H. Qed.
+  Lemma safe_fail A t l (Pq : A -> tview -> Prop) : safe t (@fail (St S) (Res S) P A) l (optQ Pq).
+  Proof. exact I. Qed.
+
+  Ltac neutral_side :=
+    first [ apply neutral_a_ld | apply neutral_a_begin | apply neutral_a_ldcount | apply neutral_a_faacount
+          | apply neutral_a_st; cbn; first [exact I | unfold st_active, st_inactive, st_removed; lia]
+          | apply neutral_a_cas; cbn; first [exact I | unfold st_active, st_inactive, st_removed; lia] ].
+  Ltac neu := apply safe_neutral; [neutral_side|intros ?v].
+
+  Lemma safe_push_loop t f r l (Pq : unit -> tview -> Prop) :
+    (f = FNext \/ f = FNextA) -> Pq tt l -> forall fuel p, safe t (kpush_loop fuel f r p) l (optQ Pq).
+  Proof.
+    intros Hf HQ. induction fuel as [|fu IH]; intros p; cbn [push_loop]; [exact I|].
+    destruct Hf as [-> | ->]; neu; neu; destruct (Nat.eqb (vn v0) p); try exact HQ; apply IH.
+  Qed.
+
+  Lemma safe_publish t fuel r l (Pq : unit -> tview -> Prop) : Pq tt l -> safe t (kpublish fuel r) l (optQ Pq).
+  Proof.
+    intros HQ. unfold publish. neu. neu. neu. destruct (Nat.eqb r head); [exact HQ|]. neu.
+    destruct (Nat.eqb (vn v2) (Datatypes.S r)); [exact HQ|]. apply safe_push_loop; auto.
+  Qed.
+
+  Lemma safe_republish t fuel r l (Pq : unit -> tview -> Prop) : Pq tt l -> safe t (krepublish fuel r) l (optQ Pq).
+  Proof.
+    intros HQ. unfold republish. neu. destruct (Nat.eqb (vn v) st_active); [exact HQ|]. apply safe_publish; exact HQ.
+  Qed.
+
+  Definition Comb (l : tview) : Prop := v_lk l = LInside /\ v_fin l = [].
+  Definition same_cl (l l' : tview) : Prop := v_my l' = v_my l /\ v_ph l' = v_ph l.
+  Lemma same_cl_refl l : same_cl l l. Proof. split; reflexivity. Qed.
+  Lemma same_cl_trans l1 l2 l3 : same_cl l1 l2 -> same_cl l2 l3 -> same_cl l1 l3.
+  Proof. intros [A B] [C D]. split; congruence. Qed.
+
+  (** combining_pass *)
+  Lemma safe_cpass t age : forall fuel p b l l0, Comb l -> same_cl l0 l ->
+    safe t (kcpass fuel age p b) l (optQ (fun _ l' => Comb l' /\ same_cl l0 l')).
+  Proof.
+    induction fuel as [|fu IH]; intros p b l l0 Hc Hs; cbn [cpass]; [exact I|].
+    destruct p as [|r]; [split; assumption|].
+    neu. destruct (Nat.eqb (vn v) st_active).
+    - destruct Hc as [Hlk Hfin]. apply safe_ld_req; auto.
+      + intros v1 Hv1. cbn [vn]. destruct (Nat.leb_spec req_Operation v1); [unfold req_Operation in *; lia|].
+        neu. apply IH; [split; assumption|assumption].
+      + intros v1 x Hv1. cbn [vn]. destruct (Nat.leb_spec req_Operation v1); [|unfold req_Operation in *; lia].
+        neu. eapply safe_apply with (o := v1) (z := x); [exact Hlk|exact Hfin|left; reflexivity|].
+        intros v3. eapply safe_done; [exact Hlk|reflexivity|]. intros v4. neu.
+        apply IH; [split; [exact Hlk|reflexivity]|]. destruct Hs as [A B]. split; [exact A|exact B].
+    - neu. apply IH; assumption.
+  Qed.
+
+  Lemma safe_passes t fuel age : forall n nE nU l l0, Comb l -> same_cl l0 l ->
+    safe t (kpasses fuel age n nE nU) l (optQ (fun _ l' => Comb l' /\ same_cl l0 l')).
+  Proof.
+    induction n as [|n IH]; intros nE nU l l0 Hc Hs; cbn [passes]; [split; assumption|].
+    apply safe_obind. eapply Conc.safe_weaken; [|apply safe_cpass; eassumption].
+    intros [b|] l' Hx; [|exact I]. unfold optQ in Hx. destruct Hx as [Hc' Hs']. destruct b; [apply IH; assumption|].
+    destruct (Nat.ltb nU (Datatypes.S nE)); [apply safe_ret; split; assumption|apply IH; assumption].
+  Qed.
+
+  (** kernel::iterator::skip_inactive: the record it stops at has been seen pending *)
+  Definition at_pending (it : nat) (l : tview) : Prop :=
+    it = 0 \/ exists r o z, it = Datatypes.S r /\ In (r, o, z) (v_held l).
+
+  Lemma safe_skip t : forall fuel p l l0, Comb l -> same_cl l0 l ->
+    safe t (kskip fuel p) l (optQ (fun it l' => Comb l' /\ same_cl l0 l' /\ v_p l' = v_p l /\ at_pending it l')).
+  Proof.
+    induction fuel as [|fu IH]; intros p l l0 Hc Hs; cbn [skip_inactive]; [exact I|].
+    destruct p as [|r]; [repeat split; try apply Hc; try apply Hs; left; reflexivity|].
+    neu. destruct (Nat.eqb (vn v) st_active).
+    - destruct Hc as [Hlk Hfin]. apply safe_ld_req; auto.
+      + intros v1 Hv1. cbn [vn]. destruct (Nat.leb_spec req_Operation v1); [unfold req_Operation in *; lia|].
+        neu. apply IH; [split; assumption|assumption].
+      + intros v1 x Hv1. cbn [vn]. destruct (Nat.leb_spec req_Operation v1); [|unfold req_Operation in *; lia].
+        cbn. repeat split; auto; try apply Hs. right. exists r, v1, x. split; [reflexivity|left; reflexivity].
+    - neu. apply IH; assumption.
+  Qed.
+
+  (** the same, forgetting what a previous fc_process call remembered *)
+  Lemma safe_skip_reset t fuel r l l0 : Comb l -> same_cl l0 l ->
+    safe t (kskip fuel (Datatypes.S r)) l (optQ (fun it l' => Comb l' /\ same_cl l0 l' /\ v_p l' = [] /\ at_pending it l')).
+  Proof.
+    intros Hc Hs. destruct fuel as [|fu]; cbn [skip_inactive]; [exact I|].
+    apply safe_neutral_p with (p' := []); [neutral_side|intros e []|intros v].
+    assert (Hc' : Comb (vp l [])) by exact Hc. assert (Hs' : same_cl l0 (vp l [])) by exact Hs.
+    destruct (Nat.eqb (vn v) st_active).
+    - destruct Hc' as [Hlk Hfin]. apply safe_ld_req; auto.
+      + intros v1 Hv1. cbn [vn]. destruct (Nat.leb_spec req_Operation v1); [unfold req_Operation in *; lia|].
+        neu. eapply Conc.safe_weaken; [|apply safe_skip; [split; eassumption|eassumption]].
+        intros [it|] l' Hx; [|exact I]. exact Hx.
+      + intros v1 x Hv1. cbn [vn]. destruct (Nat.leb_spec req_Operation v1); [|unfold req_Operation in *; lia].
+        cbn. repeat split; auto; try apply Hs. right. exists r, v1, x. split; [reflexivity|left; reflexivity].
+    - neu. eapply Conc.safe_weaken; [|apply safe_skip; eassumption].
+      intros [it|] l' Hx; [|exact I]. exact Hx.
+  Qed.
+  (** the fc_process loop *)
+  Lemma safe_walk t : forall fuel it p l l0, Comb l -> same_cl l0 l -> v_p l = pheld p -> at_pending it l ->
+    safe t (kwalk fuel it p) l (optQ (fun _ l' => Comb l' /\ same_cl l0 l')).
+  Proof.
+    induction fuel as [|fu IH]; intros it p l l0 Hc Hs Hp Hat; cbn [process_walk]; [exact I|].
+    destruct it as [|r]; [apply safe_ret; split; assumption|].
+    destruct Hat as [Hat|(r' & o & z & E & Hin)]; [discriminate|]. inversion E; subst r'.
+    destruct Hc as [Hlk Hfin].
+    eapply safe_visit with (o := o) (z := z); [exact Hlk|exact Hfin|exact Hin|exact Hp|].
+    intros p' comps. apply safe_dones; [exact Hlk|]. exists []. split; [cbn; rewrite app_nil_r; reflexivity|].
+    neu. apply safe_obind. eapply Conc.safe_weaken; [|apply safe_skip with (l0 := l0); [split; [exact Hlk|reflexivity]|exact Hs]].
+    intros [it'|] l' Hx; [|exact I]. unfold optQ in Hx. destruct Hx as (Hc' & Hs' & Hp' & Hat').
+    apply IH; auto.
+  Qed.
+
+  Lemma safe_fc_process t fuel l l0 : Comb l -> same_cl l0 l ->
+    safe t (kfc_process fuel) l (optQ (fun _ l' => Comb l' /\ same_cl l0 l')).
+  Proof.
+    intros Hc Hs. unfold fc_process. apply safe_obind.
+    eapply Conc.safe_weaken; [|apply safe_skip_reset with (l0 := l0); assumption].
+    intros [it|] l' Hx; [|exact I]. unfold optQ in Hx. destruct Hx as (Hc' & Hs' & Hp' & Hat').
+    apply safe_walk; auto. rewrite pinit_held. exact Hp'.
+  Qed.
+
+  Lemma safe_process_passes t fuel : forall n l l0, Comb l -> same_cl l0 l ->
+    safe t (kprocess_passes fuel n) l (optQ (fun _ l' => Comb l' /\ same_cl l0 l')).
+  Proof.
+    induction n as [|n IH]; intros l l0 Hc Hs; cbn [process_passes]; [apply safe_ret; split; assumption|].
+    apply safe_obind. eapply Conc.safe_weaken; [|apply safe_fc_process with (l0 := l0); assumption].
+    intros [u|] l' Hx; [|exact I]. unfold optQ in Hx. destruct Hx as [Hc' Hs']. apply IH; assumption.
+  Qed.
+
+  Lemma safe_is_published t r l (Pq : bool -> tview -> Prop) : (forall b, Pq b l) ->
+    forall fuel p, safe t (kis_published fuel r p) l (optQ Pq).
+  Proof.
+    intros HQ. induction fuel as [|fu IH]; intros p; cbn [is_published]; [exact I|].
+    destruct p as [|q]; [apply HQ|]. destruct (Nat.eqb q r); [apply HQ|]. neu. apply IH.
+  Qed.
+
+  Lemma safe_compact2 t : forall fuel pp p l l0, Comb l -> same_cl l0 l ->
+    safe t (kcompact2 fuel pp p) l (optQ (fun _ l' => Comb l' /\ same_cl l0 l')).
+  Proof.
+    induction fuel as [|fu IH]; intros pp p l l0 Hc Hs; cbn [compact2]; [exact I|].
+    destruct p as [|r]; [apply safe_ret; split; assumption|].
+    apply safe_ld_state_cand.
+    - intros v Hv. cbn [vn]. destruct (Nat.eqb_spec v st_removed); [contradiction|]. neu. apply IH; assumption.
+    - cbn [vn]. rewrite Nat.eqb_refl.
+      assert (Hc' : Comb (vcand l (Some r))) by exact Hc. assert (Hs' : same_cl l0 (vcand l (Some r))) by exact Hs.
+      apply safe_obind.
+      assert (Hk : forall pub, safe t (if pub : bool then Act (@a_ld (St S) (Res S) P r FNextA) (fun n => kcompact2 fu r (vn n))
+                                else Act (@a_ld (St S) (Res S) P r FNextA) (fun nx =>
+                                     Act (@a_cas_free (St S) (Res S) rs0 P pp (Datatypes.S r) (vn nx) r) (fun v =>
+                                     if Nat.eqb (vn v) (Datatypes.S r) then kcompact2 fu pp (vn nx)
+                                     else match vn v with
+                                          | O => @fail (St S) (Res S) P unit
+                                          | Datatypes.S r' => Act (@a_ld (St S) (Res S) P r' FNextA) (fun n => kcompact2 fu r' (vn n))
+                                          end)))
+                           (vcand l (Some r)) (optQ (fun _ l' => Comb l' /\ same_cl l0 l'))).
+      { intros [|].
+        - neu. apply IH; assumption.
+        - neu. apply safe_cas_free with (victim := r); [apply Hc'|reflexivity|]. intros v1.
+          destruct (Nat.eqb (vn v1) (Datatypes.S r)); [apply IH; assumption|].
+          destruct (vn v1) as [|r']; [exact I|]. neu. apply IH; assumption. }
+      destruct chk.
+      + neu. eapply Conc.safe_weaken; [|apply safe_is_published with (Pq := fun b l' => l' = vcand l (Some r)); reflexivity].
+        intros [pub|] l' Hx; [|exact I]. unfold optQ in Hx. subst l'. apply Hk.
+      + apply (Hk false).
+  Qed.
+
+  Lemma safe_compact1 t age mask l (Pq : bool -> tview -> Prop) : (forall b, Pq b l) ->
+    forall fuel pp p, safe t (kcompact1 fuel age mask pp p) l (optQ Pq).
+  Proof.
+    intros HQ. induction fuel as [|fu IH]; intros pp p; cbn [compact1]; [exact I|].
+    destruct p as [|r]; [apply HQ|]. neu. destruct (Nat.eqb (vn v) st_active).
+    - neu. destruct (Nat.ltb (vn v0 + mask) age).
+      + neu. neu. destruct (Nat.eqb (vn v2) (Datatypes.S r)); [neu; apply IH|].
+        destruct (vn v2) as [|r']; [exact I|]. neu. apply IH.
+      + neu. apply IH.
+    - destruct (Nat.eqb (vn v) st_removed).
+      + neu. neu. destruct (Nat.eqb (vn v1) (Datatypes.S r)); [apply IH|apply HQ].
+      + neu. apply IH.
+  Qed.
+
+  Lemma safe_compact_list t fuel age mask : forall tries l l0, Comb l -> same_cl l0 l ->
+    safe t (kcompact_list tries fuel age mask) l (optQ (fun _ l' => Comb l' /\ same_cl l0 l')).
+  Proof.
+    induction tries as [|tr IH]; intros l l0 Hc Hs; cbn [compact_list]; [exact I|].
+    neu. apply safe_obind.
+    eapply Conc.safe_weaken; [|apply safe_compact1 with (Pq := fun b l' => l' = l); reflexivity].
+    intros [fin|] l' Hx; [|exact I]. unfold optQ in Hx. subst l'. destruct fin; [|apply IH; assumption].
+    neu. apply safe_compact2; assumption.
+  Qed.
+
+  Lemma safe_combining t fuel mask npass batch l l0 : Comb l -> same_cl l0 l ->
+    safe t (kcombining fuel mask npass batch) l (optQ (fun _ l' => Comb l' /\ same_cl l0 l')).
+  Proof.
+    intros Hc Hs. unfold combining. neu. apply safe_obind.
+    assert (Hend : forall l', Comb l' -> same_cl l0 l' ->
+              safe t (if Nat.eqb (Nat.land (Datatypes.S (vn v)) mask) 0 then kcompact_list fuel fuel (Datatypes.S (vn v)) mask
+                      else @ret (St S) (Res S) P unit tt) l' (optQ (fun _ l'' => Comb l'' /\ same_cl l0 l''))).
+    { intros l' Hc' Hs'. destruct (Nat.eqb (Nat.land (Datatypes.S (vn v)) mask) 0); [apply safe_compact_list; assumption|apply safe_ret; split; assumption]. }
+    destruct batch.
+    - apply safe_obind. eapply Conc.safe_weaken; [|apply safe_process_passes with (l0 := l0); assumption].
+      intros [u|] l' Hx; [|exact I]. unfold optQ in Hx. destruct Hx as [Hc' Hs'].
+      apply safe_obind. eapply Conc.safe_weaken; [|apply safe_cpass with (l0 := l0); assumption].
+      intros [b|] l'' Hx; [|exact I]. unfold optQ in Hx. destruct Hx as [Hc'' Hs''].
+      apply safe_ret. apply Hend; assumption.
+    - eapply Conc.safe_weaken; [|apply safe_passes with (l0 := l0); assumption].
+      intros [u|] l' Hx; [|exact I]. unfold optQ in Hx. destruct Hx as [Hc' Hs']. apply Hend; assumption.
+  Qed.
+  (** the client side: a thread outside the combiner role *)
+  Definition Out (l : tview) : Prop := v_lk l = LNone /\ v_fin l = [].
+
+  Lemma safe_unlock_seq t l l0 : v_lk l = LInside -> v_fin l = [] -> same_cl l0 l ->
+    forall (Pq : unit -> tview -> Prop), (forall l', Out l' -> same_cl l0 l' -> Pq tt l') ->
+    safe t (Emit [EvCli "unlock" []] (Act (@a_unlock (St S) (Res S) P) (fun _ => @ret (St S) (Res S) P unit tt))) l (optQ Pq).
+  Proof.
+    intros Hlk Hfin Hs Pq HQ. apply safe_emit_unlock; [exact Hlk|exact Hfin|].
+    apply safe_unlock; [reflexivity|]. intros v. apply safe_ret. apply HQ; [split; [reflexivity|exact Hfin]|exact Hs].
+  Qed.
+
+  Lemma safe_as_combiner t fuel mask npass batch r l l0 : v_lk l = LHeld -> v_fin l = [] -> same_cl l0 l ->
+    safe t (@as_combiner (St S) (Res S) rs0 rs_enc capply P pinit pvisit chk fuel mask npass batch r) l
+         (optQ (fun _ l' => Out l' /\ same_cl l0 l')).
+  Proof.
+    intros Hlk Hfin Hs. unfold as_combiner. apply safe_emit_lock; [exact Hlk|].
+    apply safe_obind. apply safe_republish. apply safe_obind.
+    eapply Conc.safe_weaken; [|apply safe_combining with (l0 := l0); [split; [reflexivity|exact Hfin]|exact Hs]].
+    intros [u|] l' Hx; [|exact I]. unfold optQ in Hx. destruct Hx as [[Hlk' Hfin'] Hs'].
+    apply safe_unlock_seq with (l0 := l0); auto.
+  Qed.
+
+  Lemma safe_wait t pfuel r : forall fuel l l0, Out l -> same_cl l0 l ->
+    safe t (kwait fuel pfuel r) l
+         (optQ (fun served l' => same_cl l0 l' /\ v_fin l' = [] /\ v_lk l' = if served : bool then LNone else LInside)).
+  Proof.
+    induction fuel as [|fu IH]; intros l l0 [Hlk Hfin] Hs; cbn [wait_for_combining]; [exact I|].
+    neu. destruct (Nat.eqb (vn v) req_Response); [apply safe_ret; repeat split; try apply Hs; assumption|].
+    apply safe_obind. apply safe_republish.
+    apply safe_xchg.
+    - cbn [vn Nat.eqb]. apply IH; [split; assumption|assumption].
+    - cbn [vn Nat.eqb]. apply safe_emit_lock; [reflexivity|]. neu.
+      destruct (Nat.eqb (vn v0) req_Response).
+      + apply safe_emit_unlock; [reflexivity|exact Hfin|]. apply safe_unlock; [reflexivity|]. intros v1.
+        apply safe_ret. repeat split; try apply Hs. exact Hfin.
+      + apply safe_ret. repeat split; try apply Hs. exact Hfin.
+  Qed.
+
+  Lemma safe_try t fuel mask npass batch r l l0 : Out l -> same_cl l0 l ->
+    safe t (ktry fuel mask npass batch r) l (optQ (fun _ l' => Out l' /\ same_cl l0 l')).
+  Proof.
+    intros [Hlk Hfin] Hs. unfold try_combining. apply safe_xchg.
+    - cbn [vn Nat.eqb]. apply safe_obind.
+      eapply Conc.safe_weaken; [|apply safe_wait with (l0 := l0); [split; assumption|assumption]].
+      intros [served|] l' Hx; [|exact I]. unfold optQ in Hx. destruct Hx as (Hs' & Hfin' & Hlk').
+      destruct served; [apply safe_ret; split; [split; assumption|assumption]|].
+      apply safe_obind. apply safe_republish. apply safe_obind.
+      eapply Conc.safe_weaken; [|apply safe_combining with (l0 := l0); [split; assumption|exact Hs']].
+      intros [u|] l'' Hx; [|exact I]. unfold optQ in Hx. destruct Hx as [[Hlk'' Hfin''] Hs''].
+      apply safe_unlock_seq with (l0 := l0); auto.
+    - cbn [vn Nat.eqb]. apply safe_as_combiner; [reflexivity|exact Hfin|exact Hs].
+  Qed.
+
+  Lemma safe_acquire t fuel my l : v_my l = my ->
+    safe t (kacquire fuel my) l (optQ (fun r l' => l' = vmy l (Some r))).
+  Proof.
+    intros Hm. destruct my as [r|]; cbn [acquire_record].
+    - assert (El : l = vmy l (Some r)) by (destruct l; cbn in *; subst; reflexivity).
+      neu. destruct (Nat.eqb (vn v) st_active); [apply safe_ret; exact El|].
+      apply safe_obind. apply safe_publish. apply safe_ret. exact El.
+    - apply safe_new; [exact Hm|]. intros r. cbn [vn]. neu. apply safe_obind. apply safe_push_loop; [right; reflexivity|].
+      apply safe_obind. apply safe_publish. apply safe_ret. reflexivity.
+  Qed.
+
+  Definition Idle_at (my : option nat) (l : tview) : Prop := v_my l = my /\ v_ph l = PIdle /\ Out l.
+
+  Lemma safe_krequest t fuel mask npass batch my op arg l : okop op = true -> Idle_at my l ->
+    safe t (krequest fuel mask npass batch t my op arg) l (optQ (fun r l' => Idle_at (Some r) l')).
+  Proof.
+    intros Hok (Hm & Hp & Ho). unfold request.
+    apply safe_emit_inv; [exact Hp|exact Hok|].
+    apply safe_obind. eapply Conc.safe_weaken; [|apply safe_acquire; exact Hm].
+    intros [r|] l' Hx; [|exact I]. unfold optQ in Hx. subst l'.
+    apply safe_request with (op := op) (arg := arg); [reflexivity|reflexivity|]. intros v.
+    apply safe_obind.
+    eapply Conc.safe_weaken; [|apply safe_try with (l0 := vph (vmy (vph l (PInv op arg)) (Some r)) (PWait op arg)); [exact Ho|apply same_cl_refl]].
+    intros [u|] l' Hx; [|exact I]. unfold optQ in Hx. destruct Hx as [Ho' [Hm' Hp']]. cbn in Hm', Hp'.
+    apply safe_release with (op := op) (arg := arg); [exact Hm'|exact Hp'|]. intros rs.
+    apply safe_emit_ret with (op := op) (arg := arg); [reflexivity|]. apply safe_ret.
+    repeat split; try apply Ho'. exact Hm'.
+  Qed.
+
+  Lemma safe_kexit t my l : Idle_at my l -> safe t (kexit my) l (optQ (fun _ l' => Idle_at None l')).
+  Proof.
+    intros (Hm & Hp & Ho). destruct my as [r|]; cbn [thread_exit].
+    - apply safe_exit; [exact Hm|exact Hp|]. intros v. apply safe_ret. repeat split; try apply Ho. exact Hp.
+    - apply safe_ret. repeat split; try apply Ho; assumption.
+  Qed.
+
+  Definition cop_ok (o : cop) : Prop := match o with CReq _ op _ => okop op = true | CExit => True end.
+
+  Lemma safe_run_ops t fuel mask npass : forall os my l, Forall cop_ok os -> Idle_at my l ->
+    safe t (krun_ops fuel mask npass t my os) l (optQ (fun _ _ => True)).
+  Proof.
+    induction os as [|o os IH]; intros my l Hall Hi; cbn [run_ops].
+    - eapply Conc.safe_weaken; [|apply safe_kexit; exact Hi]. intros [u|] l' Hx; exact I.
+    - inversion Hall as [|? ? Ho Hall']; subst. destruct o as [batch op arg|].
+      + apply safe_obind. eapply Conc.safe_weaken; [|apply safe_krequest; [exact Ho|exact Hi]].
+        intros [r|] l' Hx; [|exact I]. unfold optQ in Hx. apply IH; assumption.
+      + apply safe_obind. eapply Conc.safe_weaken; [|apply safe_kexit; exact Hi].
+        intros [u|] l' Hx; [|exact I]. unfold optQ in Hx. apply IH; assumption.
+  Qed.
+
+  Lemma safe_emit_quiet R t name (k : prog R) l Q :
+    name <> "inv" -> name <> "exec" -> name <> "ret" -> name <> "lock" -> name <> "unlock" -> name <> "free" ->
+    safe t k l Q -> safe t (Emit [EvCli name []] k) l Q.
+  Proof.
+    intros N1 N2 N3 N4 N5 N6 K. cbn [Conc.safe]. intros g a tr [HL HR] Hv. exists a.
+    split; [|split; [apply frame_refl|rewrite Hv; exact K]].
+    assert (E : forall n, name <> n -> String.eqb name n = false) by (intros n Hn; apply String.eqb_neq; exact Hn).
+    split.
+    - apply LkInv_quiet; [exact HL|]. intros h. cbn. unfold mon_step, is_ev, is_cli; cbn.
+      rewrite (E _ N4), (E _ N5), (E _ N2), (E _ N6). reflexivity.
+    - destruct HR as [Hl|HR]; [left; apply lost_mono; exact Hl|right]. apply Rest_trace; [exact HR|].
+      cbn. unfold annot1; cbn. rewrite (E _ N1), (E _ N2), (E _ N3). reflexivity.
+  Qed.
+
+  Lemma safe_kthread t fuel mask npass os l : Forall cop_ok os -> Idle_at None l ->
+    safe t (kthread_prog fuel mask npass t os) l (@Conc.QTrue tview).
+  Proof.
+    intros Hall Hi. unfold thread_prog. neu. apply Conc.safe_bind.
+    eapply Conc.safe_weaken; [|apply safe_run_ops; eassumption].
+    intros [u|] l' _; [exact I|]. apply safe_emit_quiet; try discriminate. exact I.
+  Qed.
+  (** ** every reachable configuration *)
+  Definition aux0 : aux :=
+    mkAux (fun _ => None) (fun _ => PIdle) (fun _ => LNone) (fun _ => []) (fun _ => []) (fun _ => None) (fun _ => [])
+          (fun _ => Idle).
+
+  Notation kthread_progs := (@thread_progs (St S) (Res S) rs0 rs_enc capply P pinit pvisit chk).
+  Notation kinit_cfg := (@init_cfg (St S) (Res S) rs0 rs_enc capply P pinit pvisit chk).
+
+  Lemma nth_error_thread_progs fuel mask npass : forall ths t0 i p,
+    nth_error (kthread_progs fuel mask npass t0 ths) i = Some p ->
+    exists os, nth_error ths i = Some os /\ p = kthread_prog fuel mask npass (t0 + i) os.
+  Proof.
+    induction ths as [|os ths IH]; intros t0 i p H; cbn [thread_progs] in H; [destruct i; discriminate|].
+    destruct i as [|i]; cbn in H.
+    - inversion H; subst. exists os. split; [reflexivity|]. rewrite Nat.add_0_r. reflexivity.
+    - destruct (IH _ _ _ H) as (os' & A & B). exists os'. split; [exact A|]. rewrite B. f_equal. lia.
+  Qed.
+
+  Definition ops_ok (ths : list (list cop)) : Prop := Forall (Forall cop_ok) ths.
+
+  Lemma init_ok fuel mask npass ths : ops_ok ths ->
+    Conc.cfg_ok view Inv (kinit_cfg fuel mask npass (sinit S) ths).
+  Proof.
+    intros Hok. exists aux0. split.
+    - split.
+      + split.
+        * intros _ t. reflexivity.
+        * intros t t' H. exfalso; apply H; reflexivity.
+        * exists None. split; [reflexivity|]. intros t. cbn. split; discriminate.
+      + right. split.
+        * intros t t' r H. discriminate.
+        * intros t r H. discriminate.
+        * intros r _. cbn. unfold st_removed. discriminate.
+        * intros r H. cbn in H. unfold st_removed in H. discriminate.
+        * intros t r H. discriminate.
+        * intros r H. cbn in H. unfold req_Operation in H. lia.
+        * intros t. unfold phase_ok; cbn. split; [reflexivity|discriminate].
+        * intros t q o x [].
+        * intros t q [].
+        * reflexivity.
+        * intros t e [].
+        * intros t. constructor.
+    - intros t p Hp. cbn [kinit_cfg Conc.threads] in Hp. destruct (nth_error_thread_progs _ _ _ _ _ _ Hp) as (os & A & ->).
+      cbn [Nat.add]. apply safe_kthread.
+      + eapply Forall_forall in Hok; [exact Hok|]. eapply nth_error_In; exact A.
+      + repeat split.
+  Qed.
+
+  (** Part A: for every schedule (every sequence of thread choices), any number of threads, any client
+      programs made of requests (through combine or batch_combine) and thread exits:
+      - the combiner lock is taken by at most one thread at a time, and requests are executed and records
+        freed only by the thread holding it (the trace monitor [mon] never fails);
+      - as long as no record is released with its request unanswered, the trace annotated with
+        "execution by the combiner = linearization point" is a valid LP-trace of the container's
+        sequential specification. *)
+  Theorem fc_partA fuel mask npass ths c :
+    ops_ok ths -> Conc.reach (kinit_cfg fuel mask npass (sinit S) ths) c ->
+    (exists h, mon None (Conc.trace c) = Some h) /\
+    (has_lost (Conc.trace c) = false -> lp_valid S (annot (Conc.trace c))).
+  Proof.
+    intros Hok Hr. destruct (Conc.reach_Inv (init_ok fuel mask npass Hok) Hr) as (a & [HL HR]).
+    split.
+    - destruct HL as [_ _ (h & Hm & _)]. exists h. exact Hm.
+    - intros Hnl. destruct HR as [Hl|HR]; [congruence|]. eexists. apply (r_lp HR).
+  Qed.
 End KProofs.
